@@ -15,7 +15,7 @@ from .nodekit import (NodeKit, trace, val_id, is_ctrl, VAL, ERR, KIND, RETVAL, E
 
 MANIFEST_ENTRY = {
     'category': 'proof',
-    'text': 'with children abstract (each evaluation yields an arbitrary value, control value or language error) and for any number of branches, statements and iterations: `if` evaluates conditions in order up to the first TRUE, then exactly that branch, and returns its value; a block evaluates statements in order, stops at the first break/continue/return value and returns it unchanged; `while` alternates condition and body, consumes break/continue, passes return through and re-tests before every iteration; `for` over lists binds and visits the elements in index order and over sets in sorted order, with the same exit handling; a function call unwraps return and rejects stray break/continue; a comprehension visits the same enumeration as the for loop and appends exactly the values whose condition is TRUE; `for` over maps (default/keys/values/entries), objects and strings: the same binding and exit obligations for containers of up to 3 entries (symbolic-bounded); the remaining comprehension forms and every exit kind at every element position of every iterable kind by program enumeration on the real interpreter against a CPython reference; a comprehension tests its condition first and evaluates the value expression only for elements whose condition is TRUE (per-iteration obligation); a `for` loop leaves its scope as it found it however it is left (loop variable gone, a hidden definition back)',
+    'text': 'with children abstract (each evaluation yields an arbitrary value, control value or language error) and for any number of branches, statements and iterations: `if` evaluates conditions in order up to the first TRUE, then exactly that branch, and returns its value; a block evaluates statements in order, stops at the first break/continue/return value and returns it unchanged; `while` alternates condition and body, consumes break/continue, passes return through and re-tests before every iteration; `for` over lists binds and visits the elements in index order and over sets in sorted order, with the same exit handling; a function call unwraps return and rejects stray break/continue; a comprehension visits the same enumeration as the for loop and appends exactly the values whose condition is TRUE; `for` over maps (default/keys/values/entries), objects and strings: the same binding and exit obligations for containers of up to 3 entries (symbolic-bounded); the remaining comprehension forms and every exit kind at every element position of every iterable kind by program enumeration on the real interpreter against a CPython reference; a comprehension tests its condition first and evaluates the value expression only for elements whose condition is TRUE (per-iteration obligation); a `for` loop leaves its scope as it found it however it is left (loop variable gone, a hidden definition back); a product comprehension is two nested loops: the second collection is evaluated per element of the first with that element bound, the value expression once per pair in nested-loop order (symbolic-bounded)',
     'note': 'expression-level nodes pass control values into data (outside the property); map/object/string branches of `for`: symbolic-bounded (<= 3 entries); parallel/product comprehensions: bounded; composition to nested programs by structural induction over the node contracts (paper argument)',
     'technique': 'deductive verification: pyvc VCs from the real AST with ghost event traces and loop contracts + z3; bounded program enumeration for the remaining forms',
 }
@@ -510,6 +510,66 @@ def units(w):
                       loops={0: Loop(comp_inv(wc), modifies=["ghost:trace", "ghost:" + SEEN, "result.value:value"], lemmas=for_lemmas,
                                      at_start=comp_start if wc else None, at_end=comp_end if wc else None)},
                       prepare=K.install, replay=replay_prog))
+
+    # ---- product comprehension == two nested loops: the second collection is evaluated once per element of the first, with the
+    #      first variable bound (so it may depend on it), and the value expression once per pair, in nested-loop order
+    #      (symbolic-bounded: 2 elements in the first collection, 0..2 in each second one; the elements are arbitrary values)
+    from .common import Stubs as _Stubs
+    S_ = _Stubs(w)
+
+    def s_prod(cls_):
+        def setup(it):
+            setup_common(it)
+            e = [V.int(it, f"e{i}") for i in range(2)]
+            log = it.ghost["plog"] = []
+
+            def bound(env, name):
+                cur = env
+                while isinstance(cur, Obj):
+                    for k_, v_ in cur.fields["map"].entries:
+                        if k_ == name:
+                            return v_
+                    cur = cur.fields.get("parent")
+                return None
+
+            def second(it_, env):
+                x = bound(env, "x")
+                n2 = it_.path.choose(3)
+                ys = [V.int(it_, it_.fresh("y").replace("~", "_")) for _ in range(n2)]
+                log.append(("second", x, tuple(ys)))
+                return V.list_of(it_, ys, "second")
+
+            def value(it_, env):
+                x, y = bound(env, "x"), bound(env, "y")
+                r = V.int(it_, it_.fresh("r").replace("~", "_"))
+                log.append(("value", x, y, r))
+                return r
+            node = mk(cls_, valueExpr=S_.node("val", value), identifier1="x", listExpr1=S_.node("first", V.list_of(it, e, "first")), what1=None,
+                      identifier2="y", listExpr2=S_.node("l2", second), what2=None, conditionExpr=None)
+            return [node, env_obj(it, {})], {}, {"e": e, "log": log}
+        return setup
+
+    def p_prod(cls_):
+        def post(it, c, o):
+            log, e = c["log"], c["e"]
+            it.check("post:returns", o.kind == "return")
+            want, results = [], []
+            seconds = [l for l in log if l[0] == "second"]
+            it.check("post:the-second-collection-is-evaluated-once-per-element-of-the-first-with-that-element-bound",
+                     len(seconds) == 2 and seconds[0][1] is e[0] and seconds[1][1] is e[1])
+            if len(seconds) == 2:
+                for (_, x, ys) in seconds:
+                    want += [(x, y) for y in ys]
+                got = [(l[1], l[2]) for l in log if l[0] == "value"]
+                it.check("post:the-value-expression-is-evaluated-once-per-pair-in-nested-loop-order", len(got) == len(want) and all(a is c_ and b is d for (a, b), (c_, d) in zip(got, want)))
+                if o.kind == "return" and cls_ == "NodeListComprehensionProduct":
+                    items = o.value.fields["value"].items
+                    rs = [l[3] for l in log if l[0] == "value"]
+                    it.check("post:the-result-holds-exactly-those-values-in-that-order", items is not None and len(items) == len(rs) and all(a is b for a, b in zip(items, rs)))
+        return post
+    for cls_ in ("NodeListComprehensionProduct", "NodeSetComprehensionProduct"):
+        U.append(Unit(f"nodes.py::{cls_}.evaluate", s_prod(cls_), p_prod(cls_), name=f"nodes.py::{cls_}.evaluate[nested-loop order, dependent second collection]",
+                      bounded="2 elements in the first collection, 0..2 in each second one", prepare=K.install, replay=replay_prog))
 
     # getCollectionValue uses the same enumeration as NodeFor for lists and sets (wiring)
     def s_gcv(kind):
